@@ -186,6 +186,25 @@ class Cls(object):
     def issub(self, other):
         return other in self.mro()
 
+    def assigns_attr(self, name):
+        """does any method of the class (or its bases) store self.<name>?  (static scan; used to tell a field the
+        invariant schema does not know from an attribute that no real instance can ever have)"""
+        cache = self.__dict__.setdefault('_assigned', None)
+        if cache is None:
+            cache = set()
+            for c in self.mro():
+                for v in c.attrs.values():
+                    f = v.fget if isinstance(v, Prop) else (v.f if isinstance(v, (StaticM, ClassM)) else v)
+                    if isinstance(f, Func):
+                        for n in ast.walk(f.node):
+                            if isinstance(n, ast.Attribute) and isinstance(n.ctx, ast.Store):
+                                cache.add(n.attr)
+                            elif isinstance(n, ast.Call) and isinstance(n.func, ast.Name) and n.func.id == 'setattr' \
+                                    and n.args and isinstance(n.args[0], ast.Name) and n.args[0].id == 'self':
+                                cache.add('*')
+            self._assigned = cache
+        return name in cache or '*' in cache
+
     def __repr__(self):
         return '<Cls %s>' % self.name
 
@@ -343,6 +362,14 @@ class Interp(object):
         return None
 
     def load(self, dotted):
+        if dotted in self.modules:
+            return self.modules[dotted]
+        # python imports the parent packages (their __init__) before a submodule
+        parts = dotted.split('.')
+        for k in range(1, len(parts)):
+            parent = '.'.join(parts[:k])
+            if parent not in self.modules and self.relpath_of(parent):
+                self.load(parent)
         if dotted in self.modules:
             return self.modules[dotted]
         rel = self.relpath_of(dotted)
@@ -851,7 +878,7 @@ class Interp(object):
                     return o.cls
                 if name == '__dict__':
                     return o.fields
-                if getattr(o, '_schema', False) and not name.startswith('__'):
+                if getattr(o, '_schema', False) and not name.startswith('__') and o.cls.assigns_attr(name):
                     # the object state was built from a class-invariant schema that does not know this field:
                     # the contract needs extending; this is not evidence of a defect ("needs contract")
                     raise SchemaGap('%s field %s.%s is read but is not part of the class-invariant schema' % (self.where, o.cls.name, name))
@@ -905,6 +932,8 @@ class Interp(object):
             raise PyRaise('AttributeError', "'float' object has no attribute '%s'" % name, self.where)
         if o is None:
             raise PyRaise('AttributeError', "'NoneType' object has no attribute '%s'" % name, self.where)
+        if isinstance(o, SuperProxy):
+            return o.lookup(name)
         if isinstance(o, FuncNS):
             return o.get(name)
         try:
@@ -1261,7 +1290,7 @@ class Interp(object):
             return r if op == 'In' else (sym.not_(r) if isinstance(r, SV) else not r)
         sop = {'Lt': '<', 'LtE': '<=', 'Gt': '>', 'GtE': '>=', 'Eq': '==', 'NotEq': '!='}[op]
         if isinstance(a, (ArrBase, Masked)) or isinstance(b, (ArrBase, Masked)):
-            if (a is None or b is None or isinstance(a, str) or isinstance(b, str)) and sop in ('==', '!='):
+            if (a is None or b is None) and sop in ('==', '!='):
                 return sop == '!='
             return _PY_CMP[sop](a, b)
         if isinstance(a, sym.FPV) or isinstance(b, sym.FPV):
@@ -1480,6 +1509,9 @@ class SuperProxy(object):
     def __getattr__(self, name):
         if name in ('interp', 'cls', 'obj'):
             raise AttributeError(name)
+        return self.lookup(name)
+
+    def lookup(self, name):
         start = self.obj.cls if isinstance(self.obj, Obj) else self.obj
         mro = start.mro()
         k = mro.index(self.cls)
